@@ -1129,3 +1129,59 @@ Proof.
       unfold type_full, at_capacity. rewrite Ht. destruct (cfg_max cfg t =? 0); reflexivity. }
     rewrite Hany. destruct (existsb (at_capacity cfg evs) all_ptypes), (eb_overflown b); reflexivity.
 Qed.
+
+(* ---- select ---- *)
+
+Definition eligible (sel : erec -> option erec) (r : erec) : bool :=
+  match (if estate_eqb (r_state r) Unselected then sel r else None) with Some _ => true | None => false end.
+
+(* the first n eligible records (Unselected and accepted by the selector) become Selected *)
+Fixpoint select_mark (sel : erec -> option erec) (n : nat) (l : list erec) : list erec :=
+  match l with
+  | [] => []
+  | r :: tl =>
+    match n with
+    | O => l
+    | S k =>
+      match (if estate_eqb (r_state r) Unselected then sel r else None) with
+      | Some r' => set_state r' Selected :: select_mark sel k tl
+      | None => r :: select_mark sel n tl
+      end
+    end
+  end.
+
+Lemma select_mark_0 sel l : select_mark sel 0 l = l.
+Proof. destruct l; reflexivity. Qed.
+
+(* select by class / type with a count limit: the records selected are the FIRST min(limit, #eligible)
+   eligible ones in insertion order; nothing else changes *)
+Theorem select_takes_oldest_up_to_limit : forall sel l lim,
+  let l' := fst (select_loop sel lim l) in
+  let n := snd (select_loop sel lim l) in
+  (forall m, lim = Some m -> n <= m)
+  /\ n <= countN (eligible sel) l
+  /\ (n < countN (eligible sel) l -> lim = Some n)
+  /\ l' = select_mark sel (N.to_nat n) l.
+Proof.
+  intros sel l. induction l as [|r l IH]; intro lim; cbn [select_loop fst snd countN select_mark].
+  - repeat split; intros; try reflexivity; lia.
+  - destruct (limit_take lim) eqn:Elt.
+    + destruct (if estate_eqb (r_state r) Unselected then sel r else None) as [r'|] eqn:Es.
+      * assert (Hel : eligible sel r = true) by (unfold eligible; rewrite Es; reflexivity). rewrite Hel.
+        specialize (IH (limit_pred lim)). destruct (select_loop sel (limit_pred lim) l) as [tl' n'].
+        cbn [fst snd] in *. destruct IH as (H1 & H2 & H3 & H4).
+        replace (N.to_nat (n' + 1)) with (S (N.to_nat n')) by lia.
+        repeat split.
+        -- intros m ->. destruct m as [|p]; [discriminate Elt|]. specialize (H1 (N.pred (N.pos p)) eq_refl). lia.
+        -- lia.
+        -- intros Hlt. assert (Hlt' : n' < countN (eligible sel) l) by lia. specialize (H3 Hlt').
+           destruct lim as [m|]; [|discriminate H3]. cbn [limit_pred] in H3. injection H3 as H3.
+           destruct m as [|p]; [discriminate Elt|]. f_equal. lia.
+        -- rewrite H4. reflexivity.
+      * assert (Hel : eligible sel r = false) by (unfold eligible; rewrite Es; reflexivity). rewrite Hel.
+        specialize (IH lim). destruct (select_loop sel lim l) as [tl' n']. cbn [fst snd] in *.
+        destruct IH as (H1 & H2 & H3 & H4). repeat split; [exact H1|lia|intro; apply H3; lia|].
+        rewrite H4. destruct (N.to_nat n') eqn:En; [rewrite select_mark_0; reflexivity|reflexivity].
+    + cbn [fst snd]. destruct lim as [[|p]|]; try discriminate Elt.
+      split; [intros m Hm; injection Hm as <-; lia|]. split; [lia|]. split; [intros _; reflexivity|reflexivity].
+Qed.
